@@ -32,7 +32,7 @@ func gen(t *rapid.T) Case {
 		MaxMembers: rapid.SampledFrom([]int{1, 2, 3, 6}).Draw(t, "maxmem"), MaxPts: rapid.SampledFrom([]int{1, 2, 3, 8}).Draw(t, "maxpts"),
 		Coord: vkit.CoordAnyBits()}
 	c.G = vkit.GenGJ(t, o)
-	if c.Neg == "" && rapid.IntRange(0, 24).Draw(t, "long") == 0 {
+	if c.Neg == "" && rapid.IntRange(0, 39).Draw(t, "long") == 0 {
 		// point arrays longer than one internal read block (the decoder reads long arrays in chunks): lengths around
 		// multiples of 1024 and a few arbitrary long ones, alone or inside multi-geometries / collections
 		n := rapid.OneOf(rapid.IntRange(1020, 1030), rapid.IntRange(2040, 2056), rapid.IntRange(3000, 3100), rapid.IntRange(500, 5000)).Draw(t, "longn")
@@ -103,7 +103,8 @@ func run(c Case) (v vkit.Verdict) {
 	}
 	g := c.G.Geom()
 	mixed := false
-	for i := 0; i < vkit.WKBElements(c.G); i++ {
+	nel := vkit.WKBElements(c.G)
+	for i := 0; i < nel; i++ {
 		if o := c.Orders[i%len(c.Orders)]; o != c.Orders[0] {
 			mixed = true
 		}
@@ -196,7 +197,7 @@ func TestProp(t *testing.T) {
 	vkit.Main(t, vkit.Spec[Case]{
 		ID: "C05",
 		Rule: "rapid-generated geometries of the seven encodable types (collections nested to depth<=4, member counts 0-6, " +
-			"coordinates from arbitrary 64-bit patterns; 4% of the cases carry a point array of 500-5000 points with lengths concentrated around multiples of 1024, the decoder's read block) x encoder byte order x per-element byte-order list for an independent " +
+			"coordinates from arbitrary 64-bit patterns; 2.5% of the cases carry a point array of 500-5000 points with lengths concentrated around multiples of 1024, the decoder's read block) x encoder byte order x per-element byte-order list for an independent " +
 			"OGC WKB writer; non-trivial = nesting depth>=2, or an empty member, or a NaN/Inf/-0/subnormal coordinate, or mixed " +
 			"per-element byte orders; distinct = distinct FNV-64 hash of the case JSON",
 		Assumptions: []string{"the reference serializer in props/c05 follows the OGC simple-features WKB layout", "nil and empty slices are identified"},
